@@ -31,14 +31,16 @@ pub enum Op {
     Chmod { file: usize },
     Delete { file: usize },
     TypeChange { file: usize },
+    /// `rm f && mkdir f` (optionally with a file inside): the tracked path is gone, what is there now is untracked
+    ReplaceByDir { file: usize, populated: bool },
     /// `git add -A` (all) or `git update-index --refresh`
     GitIndex { add: bool },
     Status { write_back: bool },
 }
 #[derive(Clone, Debug, Serialize, Deserialize)]
 pub struct Workload {
-    /// (operation, nanoseconds the clock advances *after* it)
-    pub ops: Vec<(Op, u64)>,
+    /// (operation, nanoseconds the clock moves *after* it; negative = the clock is stepped back, e.g. by NTP)
+    pub ops: Vec<(Op, i64)>,
     /// time stamp granularity of the simulated file system in ns (1 or 1_000_000_000)
     pub granularity: u64,
     pub use_nsec: bool,
@@ -71,6 +73,17 @@ struct FileState {
     exec: bool,
     link: bool,
 }
+fn remove_path(p: &Path) {
+    match std::fs::symlink_metadata(p) {
+        Ok(m) if m.is_dir() => {
+            let _ = std::fs::remove_dir_all(p);
+        }
+        Ok(_) => {
+            let _ = std::fs::remove_file(p);
+        }
+        Err(_) => {}
+    }
+}
 
 fn generate(seed: u64) -> Workload {
     let mut r = Rng::stream(seed, STREAM_WORKLOAD);
@@ -83,11 +96,17 @@ fn generate(seed: u64) -> Workload {
             6 | 7 => Op::Touch { file },
             8 => Op::Chmod { file },
             9 => Op::Delete { file },
-            10 => Op::TypeChange { file },
+            10 => {
+                if r.chance(500) {
+                    Op::TypeChange { file }
+                } else {
+                    Op::ReplaceByDir { file, populated: r.chance(500) }
+                }
+            }
             11..=14 => Op::GitIndex { add: r.chance(700) },
             _ => Op::Status { write_back: r.chance(500) },
         };
-        let delta = *r.pick(&[0u64, 0, 0, 1, 999_999_999, 1_000_000_000, 1_000_000_000, 2_000_000_000]);
+        let delta = *r.pick(&[0i64, 0, 0, 1, 999_999_999, 1_000_000_000, 1_000_000_000, 2_000_000_000, 5_000_000_000, -3_000_000_000, -1_000_000_000]);
         ops.push((op, delta));
     }
     ops.push((Op::Status { write_back: false }, 0));
@@ -157,6 +176,11 @@ impl Scenario for StatusClock {
                 c.ops[i].1 = 0;
                 out.push(c);
             }
+            if w.ops[i].1 < 0 {
+                let mut c = w.clone();
+                c.ops[i].1 = 1_000_000_000;
+                out.push(c);
+            }
         }
         if w.thread_limit != 1 {
             let mut c = w.clone();
@@ -168,7 +192,7 @@ impl Scenario for StatusClock {
     fn real_stub(&self) -> Value {
         json!({
             "real": ["gix Repository::status -> index_worktree iterator (gix-status index_as_worktree: stat comparison, racy-git handling, content fallback through gix-filter/gix-object hashing)", "gix-index stat::{matches,is_racy}, Outcome::write_changes", "git add / update-index / status 2.39.5 as index writer and second opinion", "kernel tmpfs"],
-            "simulated": ["the clock: every file and index time stamp is set by the simulator (monotonic `now`, seeded steps of 0 ns .. 2 s, granularity 1 ns or 1 s)"],
+            "simulated": ["the clock: every file and index time stamp is set by the simulator (`now` advances by seeded steps of 0 ns .. 5 s and is sometimes stepped back by 1-3 s; granularity 1 ns or 1 s)"],
             "stub": [],
             "not_controlled": ["ctime (set by the kernel): both tools run with core.trustctime=false", "thread scheduling of the status producer"],
         })
@@ -213,11 +237,16 @@ impl StatusClock {
         run(git(&repo).args(["commit", "-q", "-m", "base"]))?;
         set_mtime(&repo.join(".git/index"), floor(now), true);
         let mut index: Vec<FileState> = wt.clone();
+        // time stamps as the simulation set them: per file, and of the index file
+        let mut fm: Vec<u64> = vec![floor(now); NFILES];
+        let mut im: u64 = floor(now);
+        let mut is_dir = vec![false; NFILES];
+        let mut gix_wrote_index = false;
         let shape = format!("g={} nsec={} checkstat={} threads={}", if g == 1 { "1ns" } else { "1s" }, w.use_nsec, if w.check_stat_minimal { "minimal" } else { "default" }, if w.thread_limit == 1 { "1" } else { "n" });
         let mut log = String::new();
         let mut last_index_write = now;
         for (i, (op, delta)) in w.ops.iter().enumerate() {
-            let step_class = |d: u64| if d == 0 { "same-instant" } else if d < g { "below-granularity" } else { "later" };
+            let step_class = |d: i64| if d < 0 { "stepped-back" } else if d == 0 { "same-instant" } else if (d as u64) < g { "below-granularity" } else { "later" };
             match op {
                 Op::Edit { file, same_size } => {
                     let p = repo.join(name(*file));
@@ -240,6 +269,7 @@ impl StatusClock {
                         };
                         std::fs::write(&p, &new).map_err(|e| e.to_string())?;
                         set_mtime(&p, floor(now), true);
+                        fm[*file] = floor(now);
                         wt[*file].content = Some(new);
                         log.push_str(&format!("edit{} ", if *same_size { "=" } else { "+" }));
                     }
@@ -247,6 +277,7 @@ impl StatusClock {
                 Op::Touch { file } => {
                     if wt[*file].content.is_some() {
                         set_mtime(&repo.join(name(*file)), floor(now), false);
+                        fm[*file] = floor(now);
                         log.push_str("touch ");
                     }
                 }
@@ -267,8 +298,11 @@ impl StatusClock {
                     } else {
                         counter += 1;
                         let c = format!("re-created {counter}\n").into_bytes();
+                        remove_path(&repo.join(name(*file)));
+                        is_dir[*file] = false;
                         std::fs::write(repo.join(name(*file)), &c).map_err(|e| e.to_string())?;
                         set_mtime(&repo.join(name(*file)), floor(now), true);
+                        fm[*file] = floor(now);
                         wt[*file] = FileState { content: Some(c), exec: false, link: false };
                         log.push_str("recreate ");
                     }
@@ -281,8 +315,24 @@ impl StatusClock {
                         let target = format!("target-{counter}");
                         std::os::unix::fs::symlink(&target, &p).map_err(|e| e.to_string())?;
                         set_mtime(&p, floor(now), false);
+                        fm[*file] = floor(now);
                         wt[*file] = FileState { content: Some(target.into_bytes()), exec: false, link: true };
                         log.push_str("typechange ");
+                    }
+                }
+                Op::ReplaceByDir { file, populated } => {
+                    if wt[*file].content.is_some() {
+                        let p = repo.join(name(*file));
+                        remove_path(&p);
+                        std::fs::create_dir(&p).map_err(|e| e.to_string())?;
+                        if *populated {
+                            std::fs::write(p.join("inner"), "inner\n").map_err(|e| e.to_string())?;
+                            set_mtime(&p.join("inner"), floor(now), true);
+                        }
+                        set_mtime(&p, floor(now), true);
+                        wt[*file] = FileState { content: None, exec: false, link: false };
+                        is_dir[*file] = true;
+                        log.push_str(if *populated { "dir+ " } else { "dir " });
                     }
                 }
                 Op::GitIndex { add } => {
@@ -293,14 +343,25 @@ impl StatusClock {
                         let _ = git(&repo).args(["update-index", "-q", "--refresh"]).output();
                     }
                     set_mtime(&repo.join(".git/index"), floor(now), true);
+                    im = floor(now);
                     last_index_write = now;
                     log.push_str(if *add { "git-add " } else { "git-refresh " });
                 }
                 Op::Status { write_back } => {
                     // the model's verdict
                     let mut expect: BTreeMap<String, &'static str> = BTreeMap::new();
+                    // After the clock was stepped back a change can carry a time stamp older than the index: if size and
+                    // type are also the same, nothing but reading every file on every status could find it (git does not,
+                    // by design). Such paths are not judged.
+                    let mut undecidable: Vec<String> = vec![];
                     for f in 0..NFILES {
                         let (a, b) = (&index[f], &wt[f]);
+                        if let (Some(x), Some(y)) = (&a.content, &b.content) {
+                            if x != y && x.len() == y.len() && a.link == b.link && a.exec == b.exec && fm[f] < im {
+                                undecidable.push(name(f));
+                                continue;
+                            }
+                        }
                         let v = match (&a.content, &b.content) {
                             (None, _) => continue, // not tracked (deleted and staged): untracked if present — not judged
                             (Some(_), None) => "removed",
@@ -317,7 +378,8 @@ impl StatusClock {
                         expect.insert(name(f), v);
                     }
                     // git's verdict (second opinion on the model)
-                    let porcelain = run(git(&repo).args(["status", "--porcelain", "--untracked-files=no"]))?;
+                    // (without optional locks: git status must not refresh — smudge — the index under gitoxide's feet)
+                    let porcelain = run(git(&repo).env("GIT_OPTIONAL_LOCKS", "0").args(["status", "--porcelain", "--untracked-files=no"]))?;
                     // git status may refresh the index file: keep its time stamp where the simulation put it
                     let mut gitv: BTreeMap<String, &'static str> = BTreeMap::new();
                     for l in porcelain.lines() {
@@ -339,8 +401,12 @@ impl StatusClock {
                             _ => {}
                         }
                     }
-                    set_mtime(&repo.join(".git/index"), floor(last_index_write), true);
-                    if gitv != expect {
+                    set_mtime(&repo.join(".git/index"), im, true);
+                    gitv.retain(|k, _| !undecidable.contains(k) && k.len() == 2);
+                    // git built without nanosecond support cannot be the judge once gitoxide, comparing nanoseconds, has
+                    // rewritten the index (it only smudges what it considers racy itself)
+                    let git_is_judge = !(w.use_nsec && gix_wrote_index);
+                    if git_is_judge && gitv != expect {
                         return Err(format!("model and git status disagree after [{log}]: model {expect:?}, git {gitv:?} ({shape})"));
                     }
                     // gitoxide's verdict
@@ -387,7 +453,7 @@ impl StatusClock {
                         Ok((got, needs_update, wrote))
                     });
                     rep.ops += 1;
-                    let since = now - last_index_write;
+                    let since = now as i64 - last_index_write as i64;
                     let cls = step_class(since);
                     match res {
                         Err(p) => {
@@ -398,7 +464,11 @@ impl StatusClock {
                             rep.violate(P, format!("status failed | {shape}"), format!("after [{log}]: {e}"));
                             break;
                         }
-                        Ok(Ok((got, needs_update, wrote))) => {
+                        Ok(Ok((mut got, needs_update, wrote))) => {
+                            got.retain(|k, _| !undecidable.contains(k) && k.len() == 2);
+                            if !undecidable.is_empty() {
+                                *rep.probes.entry("path-not-judged-after-clock-stepped-back".into()).or_insert(0) += 1;
+                            }
                             if got != expect {
                                 let missed: Vec<(&String, &&str)> = expect.iter().filter(|(k, v)| got.get(*k) != Some(v)).collect();
                                 let extra: Vec<(&String, &&str)> = got.iter().filter(|(k, v)| expect.get(*k) != Some(v)).collect();
@@ -413,7 +483,9 @@ impl StatusClock {
                             if wrote {
                                 *rep.probes.entry("index-written-back-by-gitoxide".into()).or_insert(0) += 1;
                                 set_mtime(&repo.join(".git/index"), floor(now), true);
+                                im = floor(now);
                                 last_index_write = now;
+                                gix_wrote_index = true;
                             }
                             if !expect.is_empty() && cls != "later" {
                                 *rep.probes.entry("change-detected-inside-the-racy-window".into()).or_insert(0) += 1;
@@ -423,7 +495,7 @@ impl StatusClock {
                     log.push_str(if *write_back { "status+write " } else { "status " });
                 }
             }
-            now += delta;
+            now = (now as i64 + delta) as u64;
             log.push_str(match step_class(*delta) {
                 "same-instant" => "",
                 "below-granularity" => "~ ",
